@@ -80,6 +80,8 @@ def parseAction (s : String) : Option Action :=
   | ["K", c] => do pure (.known (← c.toNat?))
   | ["ps", a, b, ids] => do pure (.pushSeq (← a.toNat?) (← b.toNat?) (← (ids.splitOn ",").mapM String.toNat?))
   | ["es", n] => do pure (.emitSeq (← n.toNat?))
+  | ["PRIV", c] => do pure (.setPriv (← c.toNat?) true)
+  | ["PUB", c] => do pure (.setPriv (← c.toNat?) false)
   | ["U", ids] => do pure (.knowUsers (← (ids.splitOn ",").mapM String.toNat?))
   | ["X", k, ids] => do pure (.extra (← k.toNat?) (← (ids.splitOn ",").mapM String.toNat?))
   | _ => none
@@ -97,6 +99,7 @@ def showEvent : Event → String
   | .apiChDiff c p => s!"A:chdiff{c}({p})"
   | .apiRestore p q => s!"A:restore({p},{q})"
   | .storeSeq v => s!"S:seq={v}"
+  | .inaccessible c => s!"I:c{c}"
   | .tooLong => "L"
   | .chTooLong c => s!"L:c{c}"
 
@@ -112,6 +115,7 @@ def parseEvent (s : String) : Option Event :=
   else if let some r := dropPrefix s "D:" then do pure (.dispatch (← (r.splitOn ",").mapM String.toNat?))
   else if let some r := dropPrefix s "S:pts=" then do pure (.storePts (← r.toInt?))
   else if let some r := dropPrefix s "S:qts=" then do pure (.storeQts (← r.toInt?))
+  else if let some r := dropPrefix s "I:c" then do pure (.inaccessible (← r.toNat?))
   else if let some r := dropPrefix s "S:seq=" then do pure (.storeSeq (← r.toInt?))
   else if let some r := dropPrefix s "S:state=" then
     match r.splitOn "," with
